@@ -501,6 +501,56 @@ func boundaryEntries() []*entry {
 	return es
 }
 
+// sharedSlotEntries: union members that share ONE pointer slot and have DIFFERENT struct defaults
+// (plus members without default, AnyPointer, interface, text in the same slot), also inside a group
+// and inside a group nested in a union member group.
+func sharedSlotEntries() []*entry {
+	name := "shared_slot"
+	r := &rng{s: 4711}
+	g := &schemaGen{r: r, base: name + ".capnp"}
+	g.nextID = 0x5151515 + 0x30000000000
+	g.fileID, g.enumID, g.ifaceID = g.newID(), g.newID(), g.newID()
+	nd := schema.Field_noDiscriminant
+	add := func(node *nodeSpec, f *fieldSpec) {
+		g.nfield++
+		f.name = fmt.Sprintf("f%d", g.nfield)
+		node.fields = append(node.fields, f)
+	}
+	// union of members all living in pointer slot `slot`, discriminant at 16-bit offset doff
+	members := func(node *nodeSpec, slot, doff uint32, base int) {
+		node.discOff = doff
+		add(node, &fieldSpec{kind: "struct", off: slot, disc: 0, defPtr: base + 1})
+		add(node, &fieldSpec{kind: "struct", off: slot, disc: 1, defPtr: base + 2})
+		add(node, &fieldSpec{kind: "struct", off: slot, disc: 2})
+		add(node, &fieldSpec{kind: "any", off: slot, disc: 3})
+		add(node, &fieldSpec{kind: "iface", off: slot, disc: 4})
+		add(node, &fieldSpec{kind: "struct", off: slot, disc: 5, defPtr: base + 3})
+		add(node, &fieldSpec{kind: "text", off: slot, disc: 6, defText: "t1777"})
+		add(node, &fieldSpec{kind: "list", off: slot, disc: 7, listElt: "u64", defPtr: 2})
+		node.discCount = 8
+	}
+	n := &nodeSpec{id: g.newID(), name: "S0", dwc: 1, pc: 3}
+	g.nodes = append(g.nodes, n)
+	g.structs = append(g.structs, n)
+	members(n, 0, 0, 7100)
+	// a plain group with such a union in slot 1
+	g1 := &nodeSpec{id: g.newID(), isGroup: true}
+	g.nodes = append(g.nodes, g1)
+	members(g1, 1, 1, 7200)
+	add(n, &fieldSpec{kind: "group", disc: nd, group: g1})
+	// a group that is itself a union member of a group, nesting a union in slot 2
+	g2 := &nodeSpec{id: g.newID(), isGroup: true}
+	g.nodes = append(g.nodes, g2)
+	inner := &nodeSpec{id: g.newID(), isGroup: true}
+	g.nodes = append(g.nodes, inner)
+	members(inner, 2, 3, 7300)
+	g2.discCount, g2.discOff = 2, 2
+	add(g2, &fieldSpec{kind: "group", disc: 0, group: inner})
+	add(g2, &fieldSpec{kind: "struct", off: 2, disc: 1, defPtr: 7400})
+	add(n, &fieldSpec{kind: "group", disc: nd, group: g2})
+	return []*entry{{name: name, source: "boundary", req: g.build(name)}}
+}
+
 // probes of single suspicious generator paths; reported separately from the corpus
 func probeEntries() []*entry {
 	var es []*entry
@@ -782,6 +832,230 @@ func (g *schemaGen) build(pkg string) []byte {
 	must(err)
 	rfs.At(0).SetId(g.fileID)
 	must(rfs.At(0).SetFilename(g.base))
+	b, err := msg.Marshal()
+	must(err)
+	return b
+}
+
+
+// ---------------------------------------------------------------- multi-file requests
+
+type mfStruct struct {
+	id      uint64
+	name    string
+	dwc, pc uint16
+	fields  []mfField
+}
+
+type mfField struct {
+	name string
+	slot uint32
+	ref   uint64 // struct type id
+	list  bool   // List(ref)
+	iface bool   // interface-typed field
+}
+
+type mfFile struct {
+	id       uint64
+	filename string
+	pkg, imp string
+	structs  []*mfStruct
+	iface    *mfIface
+}
+
+type mfIface struct {
+	id      uint64
+	name    string
+	methods [][2]uint64 // (param struct id, result struct id)
+}
+
+// multiFileEntries: requests with several requested files whose Go packages collide by NAME
+// (two packages "common" at different import paths; a package called like a reserved import,
+// "text"/"math"), and a main file that refers to each of them repeatedly: struct fields,
+// List(struct) fields, interface method parameters / results.  The two "Foo" have different
+// sizes, so a qualifier resolved to the wrong package is visible in the element size.
+func multiFileEntries() []*entry {
+	var es []*entry
+	mk := func(name string, others []*mfFile, refs []*mfStruct) {
+		base := uint64(0x9100000000000000) + uint64(len(es)+1)<<40
+		nid := func() uint64 { base += 0x10001; return base }
+		for _, f := range others {
+			f.id = nid()
+			for _, s := range f.structs {
+				s.id = nid()
+			}
+		}
+		main := &mfStruct{name: "Main", dwc: 1}
+		slot := uint32(0)
+		add := func(ref *mfStruct, list bool) {
+			main.fields = append(main.fields, mfField{name: fmt.Sprintf("f%d", slot), slot: slot, ref: ref.id, list: list})
+			slot++
+		}
+		// every type is referred to several times, struct and list fields interleaved
+		for round := 0; round < 2; round++ {
+			for _, r := range refs {
+				add(r, false)
+				add(r, true)
+			}
+		}
+		main.pc = uint16(slot)
+		main.id = nid()
+		mf := &mfFile{id: nid(), filename: name + ".capnp", pkg: name, imp: "c15gen/" + name, structs: []*mfStruct{main}}
+		ifc := &mfIface{id: nid(), name: "Svc"}
+		for i := range refs {
+			ifc.methods = append(ifc.methods, [2]uint64{refs[i].id, refs[(i+1)%len(refs)].id})
+		}
+		ifc.methods = append(ifc.methods, ifc.methods...) // second reference in the same file
+		mf.iface = ifc
+		es = append(es, &entry{name: name, source: "multifile", req: buildMulti(append([]*mfFile{mf}, others...))})
+	}
+	{
+		x := &mfStruct{name: "Foo", dwc: 1, pc: 0}
+		y := &mfStruct{name: "Foo", dwc: 3, pc: 2}
+		mk("mf_common", []*mfFile{
+			{filename: "x/common.capnp", pkg: "common", imp: "c15gen/mf_common/x", structs: []*mfStruct{x}},
+			{filename: "y/common.capnp", pkg: "common", imp: "c15gen/mf_common/y", structs: []*mfStruct{y}},
+		}, []*mfStruct{x, y})
+	}
+	{
+		t := &mfStruct{name: "Bar", dwc: 2, pc: 1}
+		m := &mfStruct{name: "Baz", dwc: 0, pc: 3}
+		mk("mf_reserved", []*mfFile{
+			{filename: "t/text.capnp", pkg: "text", imp: "c15gen/mf_reserved/t", structs: []*mfStruct{t}},
+			{filename: "m/math.capnp", pkg: "math", imp: "c15gen/mf_reserved/m", structs: []*mfStruct{m}},
+		}, []*mfStruct{t, m})
+	}
+	{
+		// the first reference to the second "common" is an interface-typed field (one qualified name per
+		// accessor); the struct and List(struct) fields that follow are later references
+		x := &mfStruct{id: 0x9200000000000011, name: "Foo", dwc: 1, pc: 0}
+		y := &mfStruct{id: 0x9200000000000022, name: "Foo", dwc: 3, pc: 2}
+		yi := &mfIface{id: 0x9200000000000033, name: "Cap"}
+		main := &mfStruct{id: 0x9200000000000044, name: "Main", dwc: 0, pc: 6, fields: []mfField{
+			{name: "f0", slot: 0, ref: x.id}, {name: "f1", slot: 1, ref: yi.id, iface: true},
+			{name: "f2", slot: 2, ref: y.id}, {name: "f3", slot: 3, ref: y.id, list: true},
+			{name: "f4", slot: 4, ref: x.id, list: true}, {name: "f5", slot: 5, ref: y.id, list: true}}}
+		es = append(es, &entry{name: "mf_silent", source: "multifile", req: buildMulti([]*mfFile{
+			{id: 0x9200000000000055, filename: "mf_silent.capnp", pkg: "mf_silent", imp: "c15gen/mf_silent", structs: []*mfStruct{main}},
+			{id: 0x9200000000000066, filename: "x/common.capnp", pkg: "common", imp: "c15gen/mf_silent/x", structs: []*mfStruct{x},
+				iface: &mfIface{id: 0x9200000000000088, name: "Cap"}},
+			{id: 0x9200000000000077, filename: "y/common.capnp", pkg: "common", imp: "c15gen/mf_silent/y", structs: []*mfStruct{y}, iface: yi},
+		})})
+	}
+	return es
+}
+
+func buildMulti(files []*mfFile) []byte {
+	msg, seg, err := capnp.NewMessage(capnp.SingleSegment(nil))
+	must(err)
+	req, err := schema.NewRootCodeGeneratorRequest(seg)
+	must(err)
+	total := 0
+	for _, f := range files {
+		total += 1 + len(f.structs)
+		if f.iface != nil {
+			total++
+		}
+	}
+	nl, err := req.NewNodes(int32(total))
+	must(err)
+	k := 0
+	for _, f := range files {
+		fn := nl.At(k)
+		k++
+		fn.SetId(f.id)
+		must(fn.SetDisplayName(f.filename))
+		fn.SetFile()
+		anns, err := fn.NewAnnotations(2)
+		must(err)
+		for i, a := range []struct {
+			id  uint64
+			val string
+		}{{annPackage, f.pkg}, {annImport, f.imp}} {
+			anns.At(i).SetId(a.id)
+			v, err := anns.At(i).NewValue()
+			must(err)
+			must(v.SetText(a.val))
+		}
+		nn := len(f.structs)
+		if f.iface != nil {
+			nn++
+		}
+		nested, err := fn.NewNestedNodes(int32(nn))
+		must(err)
+		for i, s := range f.structs {
+			must(nested.At(i).SetName(s.name))
+			nested.At(i).SetId(s.id)
+		}
+		if f.iface != nil {
+			must(nested.At(nn - 1).SetName(f.iface.name))
+			nested.At(nn - 1).SetId(f.iface.id)
+		}
+		for _, s := range f.structs {
+			sn := nl.At(k)
+			k++
+			sn.SetId(s.id)
+			must(sn.SetDisplayName(f.filename + ":" + s.name))
+			sn.SetDisplayNamePrefixLength(uint32(len(f.filename) + 1))
+			sn.SetScopeId(f.id)
+			sn.SetStructNode()
+			sn.StructNode().SetDataWordCount(s.dwc)
+			sn.StructNode().SetPointerCount(s.pc)
+			fl, err := sn.StructNode().NewFields(int32(len(s.fields)))
+			must(err)
+			for i, fd := range s.fields {
+				ff := fl.At(i)
+				must(ff.SetName(fd.name))
+				ff.SetCodeOrder(uint16(i))
+				ff.SetDiscriminantValue(schema.Field_noDiscriminant)
+				ff.SetSlot()
+				ff.Slot().SetOffset(fd.slot)
+				ty, err := ff.Slot().NewType()
+				must(err)
+				dv, err := ff.Slot().NewDefaultValue()
+				must(err)
+				if fd.iface {
+					ty.SetInterface()
+					ty.Interface().SetTypeId(fd.ref)
+					dv.SetInterface()
+				} else if fd.list {
+					ty.SetList()
+					et, err := ty.List().NewElementType()
+					must(err)
+					et.SetStructType()
+					et.StructType().SetTypeId(fd.ref)
+					must(dv.SetList(capnp.Ptr{}))
+				} else {
+					ty.SetStructType()
+					ty.StructType().SetTypeId(fd.ref)
+					must(dv.SetStructValue(capnp.Ptr{}))
+				}
+			}
+		}
+		if f.iface != nil {
+			in := nl.At(k)
+			k++
+			in.SetId(f.iface.id)
+			must(in.SetDisplayName(f.filename + ":" + f.iface.name))
+			in.SetDisplayNamePrefixLength(uint32(len(f.filename) + 1))
+			in.SetScopeId(f.id)
+			in.SetInterface()
+			ms, err := in.Interface().NewMethods(int32(len(f.iface.methods)))
+			must(err)
+			for i, m := range f.iface.methods {
+				must(ms.At(i).SetName(fmt.Sprintf("m%d", i)))
+				ms.At(i).SetCodeOrder(uint16(i))
+				ms.At(i).SetParamStructType(m[0])
+				ms.At(i).SetResultStructType(m[1])
+			}
+		}
+	}
+	rfs, err := req.NewRequestedFiles(int32(len(files)))
+	must(err)
+	for i, f := range files {
+		rfs.At(i).SetId(f.id)
+		must(rfs.At(i).SetFilename(f.filename))
+	}
 	b, err := msg.Marshal()
 	must(err)
 	return b
